@@ -1087,6 +1087,61 @@ func loopConds(fd *ast.FuncDecl) []string {
 	return out
 }
 
+// decisions lists, in source order, what decides the outcome of a block: every if condition, every return with
+// its values, every append, every continue/break.
+func decisions(body *ast.BlockStmt) []string {
+	var out []string
+	ast.Inspect(body, func(n ast.Node) bool {
+		switch x := n.(type) {
+		case *ast.IfStmt:
+			out = append(out, "if:"+src(x.Cond))
+			if x.Else != nil {
+				out = append(out, "has-else")
+			}
+		case *ast.BranchStmt:
+			out = append(out, x.Tok.String())
+		case *ast.ReturnStmt:
+			var vs []string
+			for _, r := range x.Results {
+				vs = append(vs, src(r))
+			}
+			out = append(out, "return:"+strings.Join(vs, ","))
+		case *ast.AssignStmt:
+			if len(x.Lhs) == 1 && len(x.Rhs) == 1 {
+				if c, ok := x.Rhs[0].(*ast.CallExpr); ok && src(c.Fun) == "append" {
+					out = append(out, "append:"+src(x.Lhs[0])+"<-"+src(c.Args[len(c.Args)-1]))
+				}
+			}
+		case *ast.FuncLit:
+			return true
+		}
+		return true
+	})
+	return out
+}
+
+// getFilesCallback: the decisions of the WalkFunc literal inside getFiles, and what getFiles calls it with
+func getFilesCallback(f *ast.File) []string {
+	fd := findFunc(f, "getFiles")
+	if fd == nil {
+		return []string{"<getFiles not found>"}
+	}
+	var out []string
+	ast.Inspect(fd.Body, func(n ast.Node) bool {
+		c, ok := n.(*ast.CallExpr)
+		if !ok || len(c.Args) != 2 {
+			return true
+		}
+		if fl, ok := c.Args[1].(*ast.FuncLit); ok {
+			out = append(out, "walk:"+src(c.Fun)+"("+src(c.Args[0])+")")
+			out = append(out, decisions(fl.Body)...)
+			return false
+		}
+		return true
+	})
+	return out
+}
+
 // ---------- F-doc : the Javadoc accessors of model/javadoc.go ----------
 
 // docAccessors classifies every GetComment* method of *Javadoc: (method, tag name, shape) where shape is
@@ -1269,6 +1324,7 @@ func main() {
 	b.WriteString("def poolCollectShape : List String := " + leanStrList(pf.Collect) + "\n\n")
 
 	// json keys
+	b.WriteString("def getFilesCallback : List String := " + leanStrList(getFilesCallback(construct)) + "\n")
 	b.WriteString("def docAccessors : List (String × String × String) := [")
 	for i, a := range docAccessors(parseFile(filepath.Join(sp, "model", "javadoc.go"))) {
 		if i > 0 {
